@@ -7,7 +7,7 @@ from vlib.kani import target_lock
 
 def build_cli(rep):
     env = offline_env({'CARGO_TARGET_DIR': os.path.join(BUILD, 'cli-target')})
-    cmd = ['cargo', 'build', '--offline', '--no-default-features', '--features', 'rust', '--bin', 'wit-bindgen']
+    cmd = ['cargo', 'build', '--offline', '--no-default-features', '--features', 'rust,c', '--bin', 'wit-bindgen']   # one CLI for the Rust and the C probes
     rep.checker_cmds.append('(cd %s && CARGO_TARGET_DIR=%s %s)' % (REPO, env['CARGO_TARGET_DIR'], ' '.join(cmd)))
     exe = os.path.join(BUILD, 'cli-target/debug/wit-bindgen')
     if os.path.exists(exe):
